@@ -5,6 +5,7 @@ import (
 	"sort"
 	"strconv"
 	"strings"
+	"time"
 
 	cluster "github.com/envoyproxy/go-control-plane/envoy/config/cluster/v3"
 	route "github.com/envoyproxy/go-control-plane/envoy/config/route/v3"
@@ -42,7 +43,11 @@ func (w *world) proxyFor(ns string, lbl map[string]string) *model.Proxy {
 
 // outboundClusters returns the names of the outbound clusters CDS generates for the proxy.
 func (w *world) outboundClusters(p *model.Proxy) []string {
-	raw, _ := configGen.BuildClusters(p, &model.PushRequest{Push: w.ps})
+	return w.outboundClustersWith(configGen, p)
+}
+
+func (w *world) outboundClustersWith(gen *core.ConfigGeneratorImpl, p *model.Proxy) []string {
+	raw, _ := gen.BuildClusters(p, &model.PushRequest{Push: w.ps, Start: time.Now()})
 	var names []string
 	for _, r := range raw {
 		c := &cluster.Cluster{}
@@ -66,7 +71,56 @@ func (w *world) outboundClusters(p *model.Proxy) []string {
 // routeVirtualHosts returns, for every outbound HTTP route configuration RDS generates, the
 // virtual host names (host:port) - the route-level observation point.
 func (w *world) routeVirtualHosts(p *model.Proxy, withDomains bool) []string {
-	ls := configGen.BuildListeners(p, w.ps)
+	return w.routeVirtualHostsWith(configGen, p, withDomains)
+}
+
+// oracleCachedXDS: the xDS generators run with a real XdsCache (the production configuration; everything else in
+// this harness uses DisabledCache) for proxies of several namespaces one after the other, twice (the second
+// round is served from what the first one left in the cache): every proxy must get what the cache-less
+// generator gives it - an entry cached for one namespace (alias-trimmed services, namespace-dependent
+// DestinationRules) must never be handed to another.
+func (w *world) oracleCachedXDS(lbl map[string]string, nss []string) string {
+	gen := core.NewConfigGenerator(model.NewXdsCache())
+	for round := 0; round < 2; round++ {
+		for _, ns := range nss {
+			p := w.proxyFor(ns, lbl)
+			if a, b := strings.Join(w.routeVirtualHostsWith(gen, p, true), ","), strings.Join(w.routeVirtualHosts(p, true), ","); a != b {
+				return "cached-rds-differs-from-uncached " + ns + " " + wire.Enc(firstDifference(a, b))
+			}
+			if a, b := strings.Join(w.outboundClustersWith(gen, p), ","), strings.Join(w.outboundClusters(p), ","); a != b {
+				return "cached-cds-differs-from-uncached " + ns + " " + wire.Enc(firstDifference(a, b))
+			}
+		}
+	}
+	cnt("xds-with-real-cache")
+	return ""
+}
+
+func firstDifference(a, b string) string {
+	x, y := strings.Split(a, ","), strings.Split(b, ",")
+	in := map[string]bool{}
+	for _, e := range y {
+		in[e] = true
+	}
+	for _, e := range x {
+		if !in[e] {
+			return "cached-only:" + e
+		}
+	}
+	in = map[string]bool{}
+	for _, e := range x {
+		in[e] = true
+	}
+	for _, e := range y {
+		if !in[e] {
+			return "uncached-only:" + e
+		}
+	}
+	return "order"
+}
+
+func (w *world) routeVirtualHostsWith(gen *core.ConfigGeneratorImpl, p *model.Proxy, withDomains bool) []string {
+	ls := gen.BuildListeners(p, w.ps)
 	names := map[string]bool{}
 	for _, rn := range core.ExtractRoutesFromListeners(ls) {
 		names[rn] = true
@@ -76,7 +130,7 @@ func (w *world) routeVirtualHosts(p *model.Proxy, withDomains bool) []string {
 		rnames = append(rnames, n)
 	}
 	sort.Strings(rnames)
-	raw, _ := configGen.BuildHTTPRoutes(p, &model.PushRequest{Push: w.ps}, rnames)
+	raw, _ := gen.BuildHTTPRoutes(p, &model.PushRequest{Push: w.ps, Start: time.Now()}, rnames)
 	var out []string
 	for _, r := range raw {
 		rc := &route.RouteConfiguration{}
